@@ -86,6 +86,8 @@ def run(ctx):
     ctx.rule("R15.f", "object level: serialize_parameters / deserialize_parameters loop over the same names with the same subset filter, call p.serialize / param[name].deserialize, and use plain json.dumps / json.loads", floor=5)
     ctx.rule("R15.g", "the value handed to the codec is the value attribute access gives: no reader of the per-instance value store conflates an explicit None with 'not set' "
                       "(one-argument .get(name) followed by an `is None` fallback)", floor=1)
+    ctx.rule("R15.h", "the base codec is the identity: Parameter.serialize / Parameter.deserialize return their argument unchanged on every path (String, Selector, List, Dict, Boolean, Color rely on it; "
+                      "any string, including 'null', is a legal String value)", floor=2)
     ctx.not_decided += ["value-level equality of the round trip (years < 1000, non-finite floats, int-vs-float) -- needs execution",
                         "decorator agreement is deliberately NOT armed: DateRange.deserialize lacks @classmethod yet round-trips because it is always called on the Parameter instance"]
 
@@ -242,3 +244,16 @@ def run(ctx):
                                             "(serialize_parameters then emits the default instead of null)" % norm(c), key="%s::none-as-absent" % f.qualname,
                              input="Integer(default=7, allow_None=True); obj.x = None; serialize_parameters() -> 7")
     ctx.require(n_reads >= 1, "no .get() read of the per-instance value store found")
+
+    # ---------------------------------------------------------------- R15.h
+    for meth in ("serialize", "deserialize"):
+        g = ctx.repo.method(PARAMETER, meth)
+        arg = g.params[-1]
+        rets = [st for st in ast.walk(g.node) if isinstance(st, ast.Return)]
+        if rets and all(isinstance(r.value, ast.Name) and r.value.id == arg for r in rets) and \
+                not any(isinstance(st, ast.Assign) and any(isinstance(t, ast.Name) and t.id == arg for t in st.targets) for st in ast.walk(g.node)):
+            ctx.ok("R15.h", g, g.node, "Parameter.%s returns its argument on every path" % meth)
+        else:
+            bad = next((r for r in rets if not (isinstance(r.value, ast.Name) and r.value.id == arg)), g.node)
+            ctx.fail("R15.h", g, bad, "the base Parameter.%s is no longer the identity (`%s`): types that inherit it (String, Selector, List, Dict, Boolean, Color) get values rewritten" % (
+                meth, norm(bad)[:60]), key="%s::not-identity" % g.qualname, input="String parameter holding the text 'null' deserializes to None")
